@@ -541,6 +541,72 @@ def _fragment(text):
         return text
 
 
+# ------------------------------------------------------------------ a function moved out to module level, moved back
+def _stored_names(stmts):
+    out = set()
+    for s in stmts:
+        for n in ast.walk(s):
+            if isinstance(n, ast.Name) and not isinstance(n.ctx, ast.Load):
+                out.add(n.id)
+            elif isinstance(n, ast.ExceptHandler) and n.name:
+                out.add(n.name)
+    return out
+
+
+def _all_params(f):
+    a = f.args
+    return {x.arg for x in a.posonlyargs + a.args + a.kwonlyargs + [y for y in (a.vararg, a.kwarg) if y is not None]}
+
+
+def _unhoist(mod):
+    """A module-level function that did not exist when the readers were written (tools/known_functions.json), that a function
+    passes around (not calls) and that reads nothing bound in that function, is defined locally again: first statement of the
+    with-block / body that holds all its uses. Where a closure-free function is defined makes no difference; anything else
+    (decorated, bound twice, reads a name the function binds, has inner functions) is left where it is."""
+    tops = {}
+    for n in mod.body:
+        if isinstance(n, (ast.FunctionDef, ast.AsyncFunctionDef, ast.ClassDef)):
+            tops.setdefault(n.name, []).append(n)
+    other = _stored_names([n for n in mod.body if not isinstance(n, (ast.FunctionDef, ast.AsyncFunctionDef, ast.ClassDef))])
+
+    def fix(f):
+        called = {id(c.func) for c in ast.walk(f) if isinstance(c, ast.Call)}
+        bound = _bound_names(f) | _all_params(f)
+        passed = []
+        for n in ast.walk(f):
+            if isinstance(n, ast.Name) and isinstance(n.ctx, ast.Load) and id(n) not in called and n.id not in passed:
+                passed.append(n.id)
+        for name in passed:
+            g = tops.get(name, [None])[0]
+            if name in py2v.KNOWN_FUNCTIONS or name in bound or name in other or len(tops.get(name, [])) != 1 \
+                    or not isinstance(g, ast.FunctionDef) or g.decorator_list or g is f:
+                continue
+            if any(isinstance(x, (ast.Global, ast.Nonlocal)) for x in ast.walk(g)):
+                continue
+            reads = {x.id for x in ast.walk(g) if isinstance(x, ast.Name)} - _all_params(g) - _stored_names(g.body)
+            if reads & bound or any(isinstance(x, (ast.FunctionDef, ast.AsyncFunctionDef, ast.Lambda, ast.ClassDef)) and x is not g
+                                    for x in ast.walk(g)):
+                continue                                             # the local copy would read the function's variables
+            block = f.body
+            while True:
+                holders = [s for s in block if _mentions(s, name)]
+                if len(holders) == 1 and isinstance(holders[0], ast.With) and not any(_mentions(w.context_expr, name) for w in holders[0].items):
+                    block = holders[0].body
+                else:
+                    break
+            at = 1 if block is f.body and block and isinstance(block[0], ast.Expr) and isinstance(block[0].value, ast.Constant) else 0
+            block.insert(at, copy.deepcopy(g))
+
+    for n in mod.body:
+        if isinstance(n, ast.FunctionDef):
+            fix(n)
+        elif isinstance(n, ast.ClassDef):
+            for m in n.body:
+                if isinstance(m, ast.FunctionDef):
+                    fix(m)
+    return ast.fix_missing_locations(mod)
+
+
 # ------------------------------------------------------------------ worker
 def take_instr(st):
     """recognise the statement that takes a range from the query queue; returns (instr text, (offset name, size name)) or None"""
@@ -711,6 +777,8 @@ def chunk_iter_ok(repo):
 # ------------------------------------------------------------------ executor strategy
 def exec_summary(repo):
     mod = py2v.parse(repo, "laspy/copc.py")
+    if py2v.NF_MODE:                               # second reading only: the job function may have been moved to module level
+        mod = _unhoist(copy.deepcopy(mod))
     f = py2v.find_func(mod, "http_thread_executor_strategy")
     body = [s for s in f.body if not (isinstance(s, ast.Expr) and isinstance(s.value, ast.Constant))]
     if len(body) != 1 or not isinstance(body[0], ast.With):
@@ -1142,6 +1210,28 @@ def gen(repo):
     o = py2v.Out("laspy/copc.py HttpFetcherThread.run, http_queue_strategy, http_thread_executor_strategy, HttpRangeStream, "
                  "requests_retry_session, ChunkIter")
     o.text += TYPES + "\n"
+
+    # every definition: read from the source as written; only when that fails, from its normal form (py2v.parse then inlines the
+    # calls of helpers that did not exist when the readers were written) - same reader, same text, so a behaviour-preserving
+    # split into new helpers regenerates the same file; when both fail the definition is MISSING with the first reason
+    add_as_written = o.add
+
+    def add(name, thunk):
+        def both():
+            try:
+                return thunk()
+            except Exception as first:
+                if py2v.NF_MODE or __import__("os").environ.get("VERIF_PY2V_INLINE", "1") == "0":
+                    raise
+                py2v.NF_MODE = True
+                try:
+                    return thunk()
+                except Exception:
+                    raise first
+                finally:
+                    py2v.NF_MODE = False
+        add_as_written(name, both)
+    o.add = add
     o.add("gen_worker_prog", lambda: "Definition gen_worker_prog : list winstr := [" + "; ".join(worker_prog(repo)) + "].\n")
 
     def mp():
